@@ -167,7 +167,7 @@ def cenc_group(rng, n: int, iv_size: int, piff: bool = False) -> list[bytes]:
     senc = full(b'senc', 0, 2 if subs else 0, senc_body)
     out = [saiz, saio, senc]
     if piff:
-        out.insert(0, full(b'uuid', 0, 2 if subs else 0, senc_body, usertype=PIFF_UUID))
+        out.insert(0, full(b'uuid', 0, 2 if subs else 0, senc_body, usertype=PIFF_UUID, large=rng.random() < 0.25))
     if rng.random() < 0.3:
         out = [out[-1]] + out[:-1]          # senc before saiz
     return out
@@ -246,7 +246,41 @@ def unknown(rng, large=False) -> bytes:
 
 
 def unknown_uuid(rng) -> bytes:
-    return box(b'uuid', rng.randbytes(rng.choice([0, 12])), usertype=rng.randbytes(16))
+    return box(b'uuid', rng.randbytes(rng.choice([0, 12])), usertype=rng.randbytes(16), large=rng.random() < 0.3)
+
+
+def desc(tag: int, payload: bytes, pad4: bool) -> bytes:
+    """ISO/IEC 14496-1 8.3.3 expandable size: 7 bits per byte, most significant group first,
+    bit 7 set on all but the last byte; pad4 = the four-byte form many muxers write"""
+    n = len(payload)
+    groups = []
+    while True:
+        groups.insert(0, n & 0x7F)
+        n >>= 7
+        if not n:
+            break
+    if pad4:
+        groups = [0] * (4 - len(groups)) + groups
+    size = bytes([g | 0x80 for g in groups[:-1]] + [groups[-1]])
+    return bytes([tag]) + size + payload
+
+
+def esds(rng) -> bytes:
+    pad4 = rng.random() < 0.5
+    asc = rng.choice([b'\x12\x10', b'\x11\x90', b'\x12\x08', b'\x13\x10', b'\x12\x10\x56\xe5\x00'])
+    dsi = desc(5, asc, pad4)
+    dcd = desc(4, bytes([0x40, 0x15]) + bits(rng, 24).to_bytes(3, 'big') + struct.pack('>II', bits(rng, 32), bits(rng, 32)) + dsi, pad4)
+    flags = rng.choice([0, 0, 0x1F, 0x40, 0x80, 0x20, 0xE3])
+    body = struct.pack('>HB', bits(rng, 16), flags)
+    if flags & 0x80:
+        body += struct.pack('>H', bits(rng, 16))
+    if flags & 0x40:
+        url = b'http://example.test/' + b'x' * rng.choice([0, 10, 120, 200])
+        body += bytes([len(url)]) + url
+    if flags & 0x20:
+        body += struct.pack('>H', bits(rng, 16))
+    sl = desc(6, b'\x02', pad4)
+    return full(b'esds', 0, 0, desc(3, body + dcd + sl, pad4))
 
 
 def container(typ: bytes, children: list[bytes], large: bool = False) -> bytes:
@@ -256,5 +290,5 @@ def container(typ: bytes, children: list[bytes], large: bool = False) -> bytes:
 LEAF_GENERATORS = {
     'ftyp': ftyp, 'styp': lambda r: ftyp(r, b'styp'), 'mvhd': mvhd, 'tkhd': tkhd, 'mdhd': mdhd, 'hdlr': hdlr,
     'mehd': mehd, 'trex': trex, 'mfhd': mfhd, 'tfdt': tfdt, 'trun': trun, 'pssh': pssh, 'sidx': sidx, 'emsg': emsg,
-    'btrt': btrt, 'pasp': pasp, 'frma': frma, 'schm': schm, 'mime': mime, 'vttC': vttc,
+    'btrt': btrt, 'pasp': pasp, 'esds': esds, 'frma': frma, 'schm': schm, 'mime': mime, 'vttC': vttc,
 }
